@@ -617,6 +617,33 @@ class PathCtx:
                 {"where": f"{self.label}:path{self.idx}:{name}", "why": why, "case": c})
         return ok
 
+    def validate_replay(self, name, case, model=None):
+        """Witness replay through the property oracle of the real-code side: on a path whose
+        obligations were all discharged the float oracle must agree (no violation)."""
+        if model is None:
+            model = self.reach(name)
+            if model is None:
+                return None
+        conc = lambda x: sym.concretize(model, x)  # noqa: E731
+        Session.active = False
+        saved = sym._CTX[0]
+        sym.set_cur(None)
+        try:
+            c = case(conc)
+            violated, detail = self.ex.module.replay_case(c)
+            ok, why = (not violated), detail
+        except Exception as e:  # noqa: BLE001
+            ok, why, c = False, f"{type(e).__name__}: {e}\n{traceback.format_exc()[-1200:]}", None
+        finally:
+            Session.active = True
+            sym.set_cur(saved)
+        if ok:
+            self.rep.validated += 1
+        else:
+            self.rep.validation_fail.append(
+                {"where": f"{self.label}:path{self.idx}:{name}", "why": why, "case": c})
+        return ok
+
     def sample(self, obj):
         if len(self.rep.samples) < 12:
             self.rep.samples.append(obj)
